@@ -9,7 +9,22 @@
 // execution adds no happens-before edges of its own between caller tasks.
 package simrt
 
-import "fmt"
+import (
+	"fmt"
+	"runtime"
+)
+
+// maxFrames bounds the depth of the running call's stack.  Legitimate recursion is bounded by
+// the scanner's nesting limit (10^4 levels, a handful of frames each); beyond this the recursion
+// has run away.  The depth is a function of the execution alone (unlike process-wide stack
+// memory, which depends on what ran before), so the step at which the guard fires replays.
+const maxFrames = 400_000
+
+var pcsBuf [maxFrames + 1]uintptr
+
+func tooDeep() bool {
+	return runtime.Callers(0, pcsBuf[:]) > maxFrames
+}
 
 // Pool policies.
 const (
@@ -96,6 +111,7 @@ type Stats struct {
 	TapeClamped        int64
 	TapeExhausted      int64
 	Intrusions         int64
+	StackGuard         int64
 }
 
 // Event is one record of the trace ring.
@@ -382,6 +398,7 @@ func (w *World) BeginCall(id uint32, kind uint32, src *Source, budget int64) {
 	t.src = src
 	t.callYields = 0
 	t.callSteps = 0
+	t.nextHang = 0
 	t.budget = w.Cfg.StepBudget
 	if budget > 0 {
 		t.budget = budget
@@ -421,12 +438,56 @@ func Step(site uint32) {
 	}
 	t := w.cur
 	t.callSteps++
-	if t.callSteps > t.budget {
+	over := t.callSteps > t.budget
+	if !over && t.callSteps&0x3ffff == 0 && tooDeep() {
+		// runaway recursion: Go's own limit (1 GB) is a fatal error that no recover() sees, so the
+		// call is ended as a hang while the process can still do it
+		w.Stats.StackGuard++
+		t.budget = t.callSteps - 1
+		over = true
+	}
+	if !over {
+		return
+	}
+	if t.hung {
+		return // already being unwound by Goexit; deferred functions still step
+	}
+	if t.exitable {
+		// The call runs on a goroutine of its own (harness: invoke): end that goroutine.
+		// Goexit runs the deferred functions (pool Puts, unlocks) in linear time and cannot be
+		// swallowed by a recover() in the library.  Unwinding by panic is not an option for deep
+		// recursions: encodeState.marshal recovers and re-panics at every level, which makes
+		// Go's panic machinery quadratic in the depth (a 2*10^6-frame recursion never finished).
 		w.Stats.Hangs++
-		// keep panicking on every further step so that a recover() in the
-		// library cannot swallow the unwinding
+		t.hung = true
+		t.hangSteps = t.callSteps
+		runtime.Goexit()
+	}
+	// Fallback (callers that run the library on their own goroutine): unwind with a sentinel
+	// panic, raised again later should a recover() in the library swallow it.
+	if t.callSteps >= t.nextHang {
+		if t.nextHang == 0 {
+			w.Stats.Hangs++
+		}
+		t.nextHang = t.callSteps + 1_000_000
 		panic(HangSentinel{t.callSteps})
 	}
+}
+
+// SetExitable says whether the current task's call runs on a goroutine that may be ended
+// with runtime.Goexit when it exceeds its budget.
+//
+//go:norace
+func (w *World) SetExitable(b bool) { w.cur.exitable = b }
+
+// TookExit reports (and clears) whether the current task's call was ended by Goexit, and at which step.
+//
+//go:norace
+func (w *World) TookExit() (bool, int64) {
+	t := w.cur
+	h, s := t.hung, t.hangSteps
+	t.hung, t.hangSteps = false, 0
+	return h, s
 }
 
 // StepYield is Step followed by a pre-emption candidate.
